@@ -288,6 +288,12 @@ func reaches(s *spec.Spec, from, to string) bool {
 	return s.Closure([]string{from})[to]
 }
 
+// restricted: a test or testonly target - only test / testonly targets may depend on it (an edit
+// must keep the graph valid, invalid graphs are C11's subject).
+func restricted(t *spec.Target) bool {
+	return strings.HasSuffix(t.Name, "test") || t.HasTag("testonly")
+}
+
 // OpDepEdge adds or removes a dependency edge, directly or through an alias.
 func OpDepEdge(r *rng.R, e *Env, aliases bool) string {
 	s := e.Spec
@@ -304,6 +310,9 @@ func OpDepEdge(r *rng.R, e *Env, aliases bool) string {
 	}
 	d := pickTarget(r, s, func(d *spec.Target) bool {
 		if d == t || reaches(s, d.Label(), t.Label()) {
+			return false
+		}
+		if restricted(d) && !restricted(t) {
 			return false
 		}
 		for _, x := range t.Deps {
@@ -358,6 +367,9 @@ func OpRetargetAlias(r *rng.R, e *Env) string {
 			for _, x := range t.Deps {
 				if s.Resolve(x) == s.Resolve(a.Label()) || x == a.Label() {
 					if t == d || reaches(s, d.Label(), t.Label()) {
+						return false
+					}
+					if restricted(d) && !restricted(t) {
 						return false
 					}
 				}
